@@ -484,8 +484,9 @@ def _delegation(base, owner, method, props, modes=("plain", "ie", "g1", "g0"), b
         __doc__ = "%s.%s(): delegation; inherits the contract of %s" % (owner, method, base.name)
         modules = _Fxp.modules
         vprops = tuple(sorted(set(base.vprops) | set(props)))
-        sprops = tuple(sorted(set(base.sprops) | (set(props) if base.sprops else set())))
-        eprops = tuple(sorted(set(base.eprops) | (set(props) if base.eprops else set())))
+        # S/E clauses count for the soundness/assertion properties only (C02, C03, C14, C16), never for C05
+        sprops = tuple(sorted(set(base.sprops) | ((set(props) - {"C05"}) if base.sprops else set())))
+        eprops = tuple(sorted(set(base.eprops) | ((set(props) - {"C05"}) if base.eprops else set())))
         type_errors = ()
 
         def configs(self, tier):
